@@ -305,7 +305,7 @@ def agg_cases(tier, seed):
            "vsc.model.covergroup_model.CovergroupModel.get_coverage", "vsc.model.coverpoint_model.CoverpointModel.equals",
            "vsc.model.coverpoint_model.CoverpointModel.clone"], agg_cases, kind="bounded",
           bound="1..3 instances of one covergroup class, each of one of 2 shapes (constructor parameter changes the bins), "
-                "at_least in {1,2}, coverpoint weights in {(1,1),(1,3),(3,1),(0,1)}, a seeded interleaving of 12 samples")
+                "at_least in {1,2}, coverpoint weights in {(1,1),(1,3),(3,1),(0,1)}, a seeded interleaving of 12 samples; then one more instance constructed after the sampling")
 def c_agg_family(c, shapes, at_least, wts):
     import vsc
     from vsc.impl.coverage_registry import CoverageRegistry
@@ -373,3 +373,18 @@ def c_agg_family(c, shapes, at_least, wts):
                     ((tc == 100.0) == all(x >= at_least for q in (0, 1) for x in want[q] if wts[q])),
                     info="step %d shape %d got %s want %s" % (step, s, tc, cov_of(want)))
             last_type[s] = tc
+    # an instance constructed AFTER same-shape instances have been sampled joins the type without disturbing its data
+    late = cg(shapes[0])
+    c.check("a late instance attaches to the existing type of its shape", late.get_model().type_cg is tm[0])
+    for s, members in types.items():
+        t = tm[members[0]]
+        got = [[t.coverpoint_l[q].get_bin_hits(j) for j in range(t.coverpoint_l[q].get_n_bins())] for q in (0, 1)]
+        want = [[sum(hits[m_][q][j] for m_ in members) for j in range(len(hits[members[0]][q]))] for q in (0, 1)]
+        c.check("constructing a further instance of a shape leaves the type's hits (bin-wise sum of its instances) unchanged",
+                got == want, info="shape %d got %s want %s" % (s, got, want))
+        tc = insts[members[0]].get_coverage()
+        c.check("... and the type coverage does not decrease", abs(tc - cov_of(want)) < 1e-3 and tc >= last_type[s] - 1e-9,
+                info="shape %d got %s want %s" % (s, tc, cov_of(want)))
+    lm = late.get_model()
+    c.check("the late instance starts with no hits of its own",
+            all(lm.coverpoint_l[q].get_bin_hits(j) == 0 for q in (0, 1) for j in range(lm.coverpoint_l[q].get_n_bins())))
